@@ -430,6 +430,8 @@ INCLUDES = [
     "playback/swimos_agent__stores__value__verif_kani.rs",
     "swimos_route__route_pattern.rs",
     "playback/swimos_route__route_pattern__verif_kani.rs",
+    "swimos_rocks_store__store_key.rs",
+    "playback/swimos_rocks_store__server__verif_kani.rs",
 ]
 
 
